@@ -291,8 +291,10 @@ func runC20(c *Ctx) {
 	if bufObj == nil || lenAssign == nil || lenHeaderSet == nil {
 		c.viol("C20.R1", key+"|length-sources", c.pos(fd.Pos()), fmt.Sprintf("could not find the installed body buffer (%v), the ContentLength assignment (%v) and the Content-Length header (%v)", bufObj != nil, lenAssign != nil, lenHeaderSet != nil))
 	} else {
-		l1 := lenOf(lenAssign.Rhs[0])
-		l2 := lenOf(lenHeaderSet.Args[1])
+		// (a length cached in a local reads like the Len() call it caches)
+		lenRhs, lenHdr := unfoldLocals(p, fdI, lenAssign.Rhs[0]), unfoldLocals(p, fdI, lenHeaderSet.Args[1])
+		l1 := lenOf(lenRhs)
+		l2 := lenOf(lenHdr)
 		// nothing but conversions of <buf>.Len()
 		pure := func(e ast.Expr, lens []*ast.CallExpr) bool {
 			if len(lens) != 1 {
@@ -308,14 +310,66 @@ func runC20(c *Ctx) {
 			})
 			return !bad
 		}
-		c.check(pure(lenAssign.Rhs[0], l1), "C20.R1", key+"|ContentLength-from-installed-buffer", c.pos(lenAssign.Pos()), "r.ContentLength = Len() of the buffer installed as r.Body",
+		c.check(pure(lenRhs, l1), "C20.R1", key+"|ContentLength-from-installed-buffer", c.pos(lenAssign.Pos()), "r.ContentLength = Len() of the buffer installed as r.Body",
 			"r.ContentLength is not exactly Len() of the buffer installed as r.Body ("+types.ExprString(lenAssign.Rhs[0])+"): for gzip/br the header would count the decoded text, not the bytes sent")
-		c.check(pure(lenHeaderSet.Args[1], l2), "C20.R1", key+"|header-from-installed-buffer", c.pos(lenHeaderSet.Pos()), "Content-Length header = Len() of the buffer installed as r.Body",
+		c.check(pure(lenHdr, l2), "C20.R1", key+"|header-from-installed-buffer", c.pos(lenHeaderSet.Pos()), "Content-Length header = Len() of the buffer installed as r.Body",
 			"the Content-Length header is not exactly Len() of the buffer installed as r.Body ("+types.ExprString(lenHeaderSet.Args[1])+")")
 		// the encoder unit: where the buffer is created and the encoder is constructed over it — the installer itself,
 		// or (when the installer receives the buffer as a parameter) the helper whose result the rewriter passes in
 		fdE, bufE, fcE := fdI, bufObj, fcI
 		returnsBuffer := false
+		var tryHelper func(scope *ast.FuncDecl, aobj types.Object)
+		// is the buffer the result of a helper of the package (the encoding phase)? Then the encoder lives there.
+		tryHelper = func(scope *ast.FuncDecl, aobj types.Object) {
+			ast.Inspect(scope.Body, func(m ast.Node) bool {
+				as, ok := m.(*ast.AssignStmt)
+				if !ok || len(as.Rhs) != 1 {
+					return true
+				}
+				call, ok := as.Rhs[0].(*ast.CallExpr)
+				if !ok {
+					return true
+				}
+				for li, l := range as.Lhs {
+					if lid, ok := l.(*ast.Ident); ok && info.ObjectOf(lid) == aobj {
+						if hfn := calleeOf(info, call); hfn != nil && hfn.Pkg() == p.Types {
+							for _, h := range allFuncDecls(p) {
+								if info.Defs[h.Name] != types.Object(hfn) || h.Body == nil {
+									continue
+								}
+								var rb types.Object
+								if h.Type.Results != nil {
+									ri := 0
+									for _, r := range h.Type.Results.List {
+										for _, rn := range r.Names {
+											if ri == li {
+												rb = info.Defs[rn]
+											}
+											ri++
+										}
+									}
+								}
+								ast.Inspect(h.Body, func(x ast.Node) bool {
+									if ret, ok := x.(*ast.ReturnStmt); ok && li < len(ret.Results) {
+										if rid, ok := ast.Unparen(ret.Results[li]).(*ast.Ident); ok && rid.Name != "nil" {
+											rb = info.ObjectOf(rid)
+										}
+									}
+									return true
+								})
+								if rb != nil {
+									fdE, bufE, fcE, returnsBuffer = h, rb, newFnCFG(h.Body, info), true
+								}
+							}
+						}
+					}
+				}
+				return true
+			})
+		}
+		if fdI == fd {
+			tryHelper(fd, bufObj)
+		}
 		if fdI != fd && installCall != nil {
 			k := 0
 			for _, prm := range fdI.Type.Params.List {
@@ -324,52 +378,7 @@ func runC20(c *Ctx) {
 						if aid, ok := ast.Unparen(installCall.Args[k]).(*ast.Ident); ok {
 							aobj := info.ObjectOf(aid)
 							fdE, bufE, fcE = fd, aobj, fc
-							// is it the result of a helper?
-							ast.Inspect(fd.Body, func(m ast.Node) bool {
-								as, ok := m.(*ast.AssignStmt)
-								if !ok || len(as.Rhs) != 1 {
-									return true
-								}
-								call, ok := as.Rhs[0].(*ast.CallExpr)
-								if !ok {
-									return true
-								}
-								for li, l := range as.Lhs {
-									if lid, ok := l.(*ast.Ident); ok && info.ObjectOf(lid) == aobj {
-										if hfn := calleeOf(info, call); hfn != nil && hfn.Pkg() == p.Types {
-											for _, h := range allFuncDecls(p) {
-												if info.Defs[h.Name] != types.Object(hfn) || h.Body == nil {
-													continue
-												}
-												var rb types.Object
-												if h.Type.Results != nil {
-													ri := 0
-													for _, r := range h.Type.Results.List {
-														for _, rn := range r.Names {
-															if ri == li {
-																rb = info.Defs[rn]
-															}
-															ri++
-														}
-													}
-												}
-												ast.Inspect(h.Body, func(x ast.Node) bool {
-													if ret, ok := x.(*ast.ReturnStmt); ok && li < len(ret.Results) {
-														if rid, ok := ast.Unparen(ret.Results[li]).(*ast.Ident); ok && rid.Name != "nil" {
-															rb = info.ObjectOf(rid)
-														}
-													}
-													return true
-												})
-												if rb != nil {
-													fdE, bufE, fcE, returnsBuffer = h, rb, newFnCFG(h.Body, info), true
-												}
-											}
-										}
-									}
-								}
-								return true
-							})
+							tryHelper(fd, aobj)
 						}
 					}
 					k++
@@ -641,19 +650,33 @@ func runC20(c *Ctx) {
 				if !ok || len(as.Rhs) != 1 {
 					continue
 				}
-				fl, ok := as.Rhs[0].(*ast.FuncLit)
-				if !ok {
+				// the codec bound here: function literals, or a value of a package-local type whose methods are the codec
+				var bodies []*ast.BlockStmt
+				if fl, ok := as.Rhs[0].(*ast.FuncLit); ok {
+					bodies = append(bodies, fl.Body)
+				} else if nt, ok := info.TypeOf(as.Rhs[0]).(*types.Named); ok && nt.Obj().Pkg() == p.Types {
+					if _, isLit := ast.Unparen(as.Rhs[0]).(*ast.CompositeLit); isLit {
+						for _, mfd := range allFuncDecls(p) {
+							if mfd.Recv != nil && mfd.Body != nil && recvTypeName(mfd.Recv.List[0].Type) == nt.Obj().Name() {
+								bodies = append(bodies, mfd.Body)
+							}
+						}
+					}
+				}
+				if len(bodies) == 0 {
 					continue
 				}
 				nAssign++
-				ast.Inspect(fl.Body, func(n ast.Node) bool {
-					if call, ok := n.(*ast.CallExpr); ok {
-						if fn := calleeOf(info, call); fn != nil && fn.Pkg() != nil && (strings.HasPrefix(fn.Name(), "NewReader") || strings.HasPrefix(fn.Name(), "NewWriter")) {
-							pkgs[fn.Pkg().Path()] = append(pkgs[fn.Pkg().Path()], fn.Name())
+				for _, body := range bodies {
+					ast.Inspect(body, func(n ast.Node) bool {
+						if call, ok := n.(*ast.CallExpr); ok {
+							if fn := calleeOf(info, call); fn != nil && fn.Pkg() != nil && (strings.HasPrefix(fn.Name(), "NewReader") || strings.HasPrefix(fn.Name(), "NewWriter")) {
+								pkgs[fn.Pkg().Path()] = append(pkgs[fn.Pkg().Path()], fn.Name())
+							}
 						}
-					}
-					return true
-				})
+						return true
+					})
+				}
 			}
 			akey := fmt.Sprintf("%s|switch:Content-Encoding|arm:%q", key, label)
 			if label == "" {
@@ -963,6 +986,21 @@ func runC20(c *Ctx) {
 			}
 		}
 	}
+	if len(appends) == 1 && !first {
+		// … or the receiver is the node a package-local search returned, and that search visits the tree in document
+		// order and stops at the first match
+		if se, ok := appends[0].Fun.(*ast.SelectorExpr); ok {
+			if call, ok := unfold(p, ins, se.X, 0).(*ast.CallExpr); ok {
+				if fn := calleeOf(info, call); fn != nil && fn.Pkg() == p.Types {
+					for _, sfd := range allFuncDecls(p) {
+						if info.Defs[sfd.Name] == types.Object(fn) && firstMatchInDocumentOrder(info, sfd) {
+							first = true
+						}
+					}
+				}
+			}
+		}
+	}
 	c.check(len(appends) == 1 && !inLoop && first, "C20.R5", ikey+"|single-append-to-first-body", c.pos(ins.Pos()), "one AppendChild on the first body node, outside loops",
 		fmt.Sprintf("the inserter no longer appends exactly one node to the first body element (AppendChild calls: %d, in a loop: %v, on element [0]: %v)", len(appends), inLoop, first))
 	// failure paths return the original body
@@ -1007,28 +1045,45 @@ func runC20(c *Ctx) {
 	_ = bodyParam
 	// the caller falls back to the original bytes when insertion fails
 	fallback := false
-	ast.Inspect(fd.Body, func(n ast.Node) bool {
-		if is, ok := n.(*ast.IfStmt); ok && strings.Contains(types.ExprString(is.Cond), "!= nil") {
-			for _, st := range is.Body.List {
-				if as, ok := st.(*ast.AssignStmt); ok && len(as.Rhs) == 1 {
-					if call, ok := as.Rhs[0].(*ast.CallExpr); ok && types.ExprString(call.Fun) == "string" {
-						fallback = true
+	unit20 := phaseUnit(p, fd)
+	for _, ufd := range unit20 {
+		ast.Inspect(ufd.Body, func(n ast.Node) bool {
+			if is, ok := n.(*ast.IfStmt); ok && strings.Contains(types.ExprString(is.Cond), "!= nil") {
+				for _, st := range is.Body.List {
+					if as, ok := st.(*ast.AssignStmt); ok && len(as.Rhs) == 1 {
+						if call, ok := unfold(p, ufd, as.Rhs[0], 0).(*ast.CallExpr); ok && types.ExprString(call.Fun) == "string" {
+							fallback = true
+						}
 					}
 				}
 			}
-		}
-		return true
-	})
+			return true
+		})
+	}
 	c.check(fallback, "C20.R5", key+"|fallback-to-original-bytes", c.pos(fd.Pos()), "when insertion fails the decoded original is re-encoded", "the rewriter no longer falls back to the original body when insertion fails")
 
 	// R4: nonce flow
 	var insCall *ast.CallExpr
+	insFd := fd // the function of the unit in which the inserter is called
 	nonceIdx := 0
+	for _, ufd := range unit20[1:] {
+		if ufd == ins {
+			continue
+		}
+		ast.Inspect(ufd.Body, func(n ast.Node) bool {
+			if call, ok := n.(*ast.CallExpr); ok {
+				if fn := calleeOf(info, call); fn != nil && fn == info.Defs[ins.Name] {
+					insCall, insFd, nonceIdx = call, ufd, 0
+				}
+			}
+			return true
+		})
+	}
 	ast.Inspect(fd.Body, func(n ast.Node) bool {
 		if call, ok := n.(*ast.CallExpr); ok {
 			fn := calleeOf(info, call)
 			if fn != nil && fn == info.Defs[ins.Name] {
-				insCall, nonceIdx = call, 0
+				insCall, insFd, nonceIdx = call, fd, 0
 			}
 			// through a wrapper of the package that hands one of its own parameters to the inserter as the nonce
 			if fn != nil && fn.Pkg() == p.Types && fn != info.Defs[ins.Name] && insCall == nil {
@@ -1049,7 +1104,7 @@ func runC20(c *Ctx) {
 							for _, prm := range wfd.Type.Params.List {
 								for _, nm := range prm.Names {
 									if info.Defs[nm] == info.ObjectOf(id) && idx < len(call.Args) {
-										insCall, nonceIdx = call, idx
+										insCall, insFd, nonceIdx = call, fd, idx
 									}
 									idx++
 								}
@@ -1065,7 +1120,8 @@ func runC20(c *Ctx) {
 	if insCall == nil || len(insCall.Args) <= nonceIdx {
 		c.viol("C20.R4", key+"|nonce-argument", c.pos(fd.Pos()), "the rewriter does not call the inserter")
 	} else {
-		arg := insCall.Args[nonceIdx]
+		// (locals assigned once and parameters of a split-off phase are read through)
+		arg := unfold(p, insFd, insCall.Args[nonceIdx], 0)
 		// arg must be parse(<csp>) where csp := r.Header.Get("Content-Security-Policy")
 		good := false
 		if pc, ok := arg.(*ast.CallExpr); ok && len(pc.Args) == 1 {
@@ -1427,4 +1483,80 @@ func compute(a, b string) string { return a + b }
 	_, _, okc := checkSnippet(c, src)
 	c.control(rule+":snippet-type-checks", okc)
 	c.ok(rule, p.PkgPath+"|memo-scan", "", fmt.Sprintf("%d memo-shaped functions found", n))
+}
+
+// firstMatchInDocumentOrder: the function searches a node tree depth-first, parents before children and children in
+// sibling order, and returns at the first node it accepts. Two forms are recognised: recursion over
+// FirstChild … NextSibling that returns the first non-nil result, and an explicit stack popped at its end onto which
+// the children are pushed from LastChild back to the first (so that the first child is popped next).
+func firstMatchInDocumentOrder(info *types.Info, fd *ast.FuncDecl) bool {
+	if fd.Body == nil || fd.Type.Results == nil || len(fd.Type.Results.List) != 1 {
+		return false
+	}
+	loopOver := func(fs *ast.ForStmt, start, step string) bool {
+		as, ok := fs.Init.(*ast.AssignStmt)
+		if !ok || len(as.Rhs) != 1 {
+			return false
+		}
+		rs, ok := ast.Unparen(as.Rhs[0]).(*ast.SelectorExpr)
+		if !ok || rs.Sel.Name != start {
+			return false
+		}
+		ps, ok := fs.Post.(*ast.AssignStmt)
+		if !ok || len(ps.Rhs) != 1 {
+			return false
+		}
+		pr, ok := ast.Unparen(ps.Rhs[0]).(*ast.SelectorExpr)
+		return ok && pr.Sel.Name == step
+	}
+	self := info.Defs[fd.Name]
+	recursive, stack, queue := false, false, false
+	ast.Inspect(fd.Body, func(n ast.Node) bool {
+		switch x := n.(type) {
+		case *ast.ForStmt:
+			if loopOver(x, "FirstChild", "NextSibling") {
+				// the recursive call's non-nil result is returned at once
+				ast.Inspect(x.Body, func(m ast.Node) bool {
+					if call, ok := m.(*ast.CallExpr); ok && types.Object(calleeOf(info, call)) == self {
+						returnsIt := false
+						ast.Inspect(x.Body, func(k ast.Node) bool {
+							if _, ok := k.(*ast.ReturnStmt); ok {
+								returnsIt = true
+							}
+							return true
+						})
+						recursive = returnsIt
+					}
+					return true
+				})
+			}
+			if loopOver(x, "LastChild", "PrevSibling") {
+				ast.Inspect(x.Body, func(m ast.Node) bool {
+					if call, ok := m.(*ast.CallExpr); ok {
+						if id, ok := call.Fun.(*ast.Ident); ok && id.Name == "append" {
+							stack = true
+						}
+					}
+					return true
+				})
+			}
+		case *ast.IndexExpr:
+			// the next node is taken from the END of the pending list (a stack); taking it from the front is a queue:
+			// breadth-first, not document order
+			if types.ExprString(x.Index) == "0" {
+				queue = true
+			}
+		}
+		return true
+	})
+	popsEnd := false
+	ast.Inspect(fd.Body, func(n ast.Node) bool {
+		if ix, ok := n.(*ast.IndexExpr); ok {
+			if be, ok := ast.Unparen(ix.Index).(*ast.BinaryExpr); ok && be.Op == token.SUB && types.ExprString(be.Y) == "1" && strings.HasPrefix(types.ExprString(be.X), "len(") {
+				popsEnd = true
+			}
+		}
+		return true
+	})
+	return recursive && !stack || stack && popsEnd && !queue
 }
